@@ -45,7 +45,7 @@ macro_rules! ev_text {
 //@ tier: quick
 //@ timeout: 1200
 //@ mem: 12
-//@ unwindset: read_sig=66; read_id=34; read_pubkey=34; read_hex=66; memcmp.0=34; memchr=12; read_u64=24; read_kind=10; burn_string=30; eat_whitespace=6; burn_number=12; json_unescape=64; check_event=4
+//@ unwindset: read_sig=66; read_id=34; read_pubkey=34; read_hex=66; memcmp.0=34; memchr=12; read_u64=24; read_kind=10; burn_string=30; eat_whitespace=6; burn_number=12; json_unescape=64; check_event=4; parse_json_event=14
 //@ encodes: Event::from_json, parse_json_event (deferred content), burn_key_and_value_after_quote, burn_string, burn_value, burn_number, eat_whitespace
 //@ bounds: order kind,content,sig,tags,created_at,pubkey,id (content before tags: deferred content) with whitespace around colons and commas, an unknown string member first whose value ends in an escaped backslash ("q\"\\"), and an unknown negative-exponent number last; arbitrary prior contents of the output buffer. Accepted; consumed = length; every accessor equals the denoted part
 //@ outside: the text itself is constant (see the header of this file)
@@ -55,7 +55,7 @@ ev_text!(c01_text_ws_unknown_small, L4, L4.len());
 //@ tier: thorough
 //@ timeout: 3000
 //@ mem: 20
-//@ unwindset: read_sig=66; read_id=34; read_pubkey=34; read_hex=66; memcmp.0=34; memchr=12; read_u64=24; read_kind=10; burn_string=30; eat_whitespace=6; burn_number=12; json_unescape=64; check_event=4
+//@ unwindset: read_sig=66; read_id=34; read_pubkey=34; read_hex=66; memcmp.0=34; memchr=12; read_u64=24; read_kind=10; burn_string=30; eat_whitespace=6; burn_number=12; json_unescape=64; check_event=4; parse_json_event=14
 //@ encodes: Event::from_json, parse_json_event, read_id, read_pubkey, read_sig, read_kind, read_u64, read_tags_array, count_tags, read_tag, read_content, json_unescape, burn_key_and_value_after_quote, burn_value
 //@ bounds: 575-byte text, order kind,content,sig,tags,created_at,pubkey,id (content before tags: deferred content), all four whitespace bytes in every gap incl. inside the tag arrays, three unknown members (first: a string with escapes and brackets that ends in an escaped backslash; middle: negative exponent number, nested arrays/objects with true/false/null; last: an object whose keys look like event members), one trailing byte after the object; arbitrary prior contents of the 200-byte output buffer. Accepted; consumed = offset just past the closing brace; id, pubkey, sig (every byte), kind, created_at, content and the three tags equal the parts the text denotes
 //@ outside: the text itself is constant (see the header of this file); other member orders / whitespace placements / unknown-member shapes
@@ -65,7 +65,7 @@ ev_text!(c01_text_ws_unknown_deferred, L2, L2_END);
 //@ tier: quick
 //@ timeout: 900
 //@ mem: 12
-//@ unwindset: read_sig=66; read_id=34; read_pubkey=34; read_hex=66; memcmp.0=34; memchr=12; read_u64=24; read_kind=10; burn_string=30; eat_whitespace=6; burn_number=12; json_unescape=64; check_event=4
+//@ unwindset: read_sig=66; read_id=34; read_pubkey=34; read_hex=66; memcmp.0=34; memchr=12; read_u64=24; read_kind=10; burn_string=30; eat_whitespace=6; burn_number=12; json_unescape=64; check_event=4; parse_json_event=14
 //@ encodes: Event::from_json, parse_json_event, read_id, read_pubkey, read_sig, read_kind, read_u64, read_tags_array, count_tags, read_tag, read_content, json_unescape, burn_key_and_value_after_quote, burn_value
 //@ bounds: order pubkey,kind,id,content,created_at,sig,tags (tags last, content deferred to the very end) with whitespace in every gap; arbitrary prior contents of the 200-byte output buffer. Accepted; consumed = offset just past the closing brace; id, pubkey, sig (every byte), kind, created_at, content and the three tags equal the parts the text denotes
 //@ outside: the text itself is constant (see the header of this file); other member orders / whitespace placements / unknown-member shapes
@@ -75,7 +75,7 @@ ev_text!(c01_text_ws_tags_last, L3, L3.len() - 1);
 //@ tier: quick
 //@ timeout: 900
 //@ mem: 12
-//@ unwindset: read_sig=66; read_id=34; read_pubkey=34; read_hex=66; memcmp.0=34; memchr=12; read_u64=24; read_kind=10; burn_string=30; eat_whitespace=6; burn_number=12; json_unescape=64; check_event=4
+//@ unwindset: read_sig=66; read_id=34; read_pubkey=34; read_hex=66; memcmp.0=34; memchr=12; read_u64=24; read_kind=10; burn_string=30; eat_whitespace=6; burn_number=12; json_unescape=64; check_event=4; parse_json_event=14
 //@ encodes: Event::from_json, parse_json_event, read_id, read_pubkey, read_sig, read_kind, read_u64, read_tags_array, count_tags, read_tag, read_content, json_unescape, burn_key_and_value_after_quote, burn_value
 //@ bounds: compact text, member order id,pubkey,created_at,kind,tags,content,sig (each member is last in one of the seven orders; content before and after tags); arbitrary prior contents of the 200-byte output buffer. Accepted; consumed = offset just past the closing brace; id, pubkey, sig (every byte), kind, created_at, content and the three tags equal the parts the text denotes
 //@ outside: the text itself is constant (see the header of this file); other member orders / whitespace placements / unknown-member shapes
@@ -86,7 +86,7 @@ ev_text!(c01_text_order_m1, M1, M1.len());
 //@ group: member_order
 //@ timeout: 900
 //@ mem: 12
-//@ unwindset: read_sig=66; read_id=34; read_pubkey=34; read_hex=66; memcmp.0=34; memchr=12; read_u64=24; read_kind=10; burn_string=30; eat_whitespace=6; burn_number=12; json_unescape=64; check_event=4
+//@ unwindset: read_sig=66; read_id=34; read_pubkey=34; read_hex=66; memcmp.0=34; memchr=12; read_u64=24; read_kind=10; burn_string=30; eat_whitespace=6; burn_number=12; json_unescape=64; check_event=4; parse_json_event=14
 //@ encodes: Event::from_json, parse_json_event, read_id, read_pubkey, read_sig, read_kind, read_u64, read_tags_array, count_tags, read_tag, read_content, json_unescape, burn_key_and_value_after_quote, burn_value
 //@ bounds: compact text, member order kind,content,sig,tags,created_at,pubkey,id (each member is last in one of the seven orders; content before and after tags); arbitrary prior contents of the 200-byte output buffer. Accepted; consumed = offset just past the closing brace; id, pubkey, sig (every byte), kind, created_at, content and the three tags equal the parts the text denotes
 //@ outside: the text itself is constant (see the header of this file); other member orders / whitespace placements / unknown-member shapes
@@ -97,7 +97,7 @@ ev_text!(c01_text_order_m2, M2, M2.len());
 //@ group: member_order
 //@ timeout: 900
 //@ mem: 12
-//@ unwindset: read_sig=66; read_id=34; read_pubkey=34; read_hex=66; memcmp.0=34; memchr=12; read_u64=24; read_kind=10; burn_string=30; eat_whitespace=6; burn_number=12; json_unescape=64; check_event=4
+//@ unwindset: read_sig=66; read_id=34; read_pubkey=34; read_hex=66; memcmp.0=34; memchr=12; read_u64=24; read_kind=10; burn_string=30; eat_whitespace=6; burn_number=12; json_unescape=64; check_event=4; parse_json_event=14
 //@ encodes: Event::from_json, parse_json_event, read_id, read_pubkey, read_sig, read_kind, read_u64, read_tags_array, count_tags, read_tag, read_content, json_unescape, burn_key_and_value_after_quote, burn_value
 //@ bounds: compact text, member order sig,id,tags,pubkey,kind,created_at,content (each member is last in one of the seven orders; content before and after tags); arbitrary prior contents of the 200-byte output buffer. Accepted; consumed = offset just past the closing brace; id, pubkey, sig (every byte), kind, created_at, content and the three tags equal the parts the text denotes
 //@ outside: the text itself is constant (see the header of this file); other member orders / whitespace placements / unknown-member shapes
@@ -107,7 +107,7 @@ ev_text!(c01_text_order_m3, M3, M3.len());
 //@ tier: quick
 //@ timeout: 900
 //@ mem: 12
-//@ unwindset: read_sig=66; read_id=34; read_pubkey=34; read_hex=66; memcmp.0=34; memchr=12; read_u64=24; read_kind=10; burn_string=30; eat_whitespace=6; burn_number=12; json_unescape=64; check_event=4
+//@ unwindset: read_sig=66; read_id=34; read_pubkey=34; read_hex=66; memcmp.0=34; memchr=12; read_u64=24; read_kind=10; burn_string=30; eat_whitespace=6; burn_number=12; json_unescape=64; check_event=4; parse_json_event=14
 //@ encodes: Event::from_json, parse_json_event, read_id, read_pubkey, read_sig, read_kind, read_u64, read_tags_array, count_tags, read_tag, read_content, json_unescape, burn_key_and_value_after_quote, burn_value
 //@ bounds: compact text, member order content,id,pubkey,sig,kind,tags,created_at (each member is last in one of the seven orders; content before and after tags); arbitrary prior contents of the 200-byte output buffer. Accepted; consumed = offset just past the closing brace; id, pubkey, sig (every byte), kind, created_at, content and the three tags equal the parts the text denotes
 //@ outside: the text itself is constant (see the header of this file); other member orders / whitespace placements / unknown-member shapes
@@ -118,7 +118,7 @@ ev_text!(c01_text_order_m4, M4, M4.len());
 //@ group: member_order
 //@ timeout: 900
 //@ mem: 12
-//@ unwindset: read_sig=66; read_id=34; read_pubkey=34; read_hex=66; memcmp.0=34; memchr=12; read_u64=24; read_kind=10; burn_string=30; eat_whitespace=6; burn_number=12; json_unescape=64; check_event=4
+//@ unwindset: read_sig=66; read_id=34; read_pubkey=34; read_hex=66; memcmp.0=34; memchr=12; read_u64=24; read_kind=10; burn_string=30; eat_whitespace=6; burn_number=12; json_unescape=64; check_event=4; parse_json_event=14
 //@ encodes: Event::from_json, parse_json_event, read_id, read_pubkey, read_sig, read_kind, read_u64, read_tags_array, count_tags, read_tag, read_content, json_unescape, burn_key_and_value_after_quote, burn_value
 //@ bounds: compact text, member order tags,created_at,id,content,sig,pubkey,kind (each member is last in one of the seven orders; content before and after tags); arbitrary prior contents of the 200-byte output buffer. Accepted; consumed = offset just past the closing brace; id, pubkey, sig (every byte), kind, created_at, content and the three tags equal the parts the text denotes
 //@ outside: the text itself is constant (see the header of this file); other member orders / whitespace placements / unknown-member shapes
@@ -129,7 +129,7 @@ ev_text!(c01_text_order_m5, M5, M5.len());
 //@ group: member_order
 //@ timeout: 900
 //@ mem: 12
-//@ unwindset: read_sig=66; read_id=34; read_pubkey=34; read_hex=66; memcmp.0=34; memchr=12; read_u64=24; read_kind=10; burn_string=30; eat_whitespace=6; burn_number=12; json_unescape=64; check_event=4
+//@ unwindset: read_sig=66; read_id=34; read_pubkey=34; read_hex=66; memcmp.0=34; memchr=12; read_u64=24; read_kind=10; burn_string=30; eat_whitespace=6; burn_number=12; json_unescape=64; check_event=4; parse_json_event=14
 //@ encodes: Event::from_json, parse_json_event, read_id, read_pubkey, read_sig, read_kind, read_u64, read_tags_array, count_tags, read_tag, read_content, json_unescape, burn_key_and_value_after_quote, burn_value
 //@ bounds: compact text, member order pubkey,kind,id,content,created_at,sig,tags (each member is last in one of the seven orders; content before and after tags); arbitrary prior contents of the 200-byte output buffer. Accepted; consumed = offset just past the closing brace; id, pubkey, sig (every byte), kind, created_at, content and the three tags equal the parts the text denotes
 //@ outside: the text itself is constant (see the header of this file); other member orders / whitespace placements / unknown-member shapes
@@ -140,7 +140,7 @@ ev_text!(c01_text_order_m6, M6, M6.len());
 //@ group: member_order
 //@ timeout: 900
 //@ mem: 12
-//@ unwindset: read_sig=66; read_id=34; read_pubkey=34; read_hex=66; memcmp.0=34; memchr=12; read_u64=24; read_kind=10; burn_string=30; eat_whitespace=6; burn_number=12; json_unescape=64; check_event=4
+//@ unwindset: read_sig=66; read_id=34; read_pubkey=34; read_hex=66; memcmp.0=34; memchr=12; read_u64=24; read_kind=10; burn_string=30; eat_whitespace=6; burn_number=12; json_unescape=64; check_event=4; parse_json_event=14
 //@ encodes: Event::from_json, parse_json_event, read_id, read_pubkey, read_sig, read_kind, read_u64, read_tags_array, count_tags, read_tag, read_content, json_unescape, burn_key_and_value_after_quote, burn_value
 //@ bounds: compact text, member order created_at,sig,kind,id,tags,content,pubkey (each member is last in one of the seven orders; content before and after tags); arbitrary prior contents of the 200-byte output buffer. Accepted; consumed = offset just past the closing brace; id, pubkey, sig (every byte), kind, created_at, content and the three tags equal the parts the text denotes
 //@ outside: the text itself is constant (see the header of this file); other member orders / whitespace placements / unknown-member shapes
@@ -232,7 +232,7 @@ fn c01_kernel_read_kind() {
 //@ tier: quick
 //@ timeout: 900
 //@ mem: 12
-//@ unwindset: read_sig=66; read_id=34; read_pubkey=34; read_hex=66; memcmp.0=34; memchr=12; read_u64=24; read_kind=10; burn_string=30; eat_whitespace=6; burn_number=12; json_unescape=64; check_event=4
+//@ unwindset: read_sig=66; read_id=34; read_pubkey=34; read_hex=66; memcmp.0=34; memchr=12; read_u64=24; read_kind=10; burn_string=30; eat_whitespace=6; burn_number=12; json_unescape=64; check_event=4; parse_json_event=14
 //@ encodes: json_unescape, next_code_point, encode_utf8, read_content
 //@ bounds: content written as \n \" \\ \/ \b \f \r \t \u00e9 \u20AC \u000a followed by literal 2-, 3- and 4-byte characters and `/x` (a constant text, arbitrary prior buffer): content() equals the 25 bytes an independent parser extracts (computed at generation time). Arbitrary string bytes are decided on the unescaper itself (C03: c03_unescape_arb3, c03_unescape_uescape)
 //@ outside: surrogate \u escapes (excluded by the property)
